@@ -220,6 +220,12 @@ func genRegistry(g *gen, n int, tier string, w *bufio.Writer) {
 		default:
 			x.p("new ro=60000 rw=60000 idle=25") // idle limit
 		}
+		if !tiny && g.chance(1, 3) {
+			x.p(fmt.Sprintf("idstorm %d %d", g.pick(16, 32), g.pick(60, 120)))
+		}
+		if !tiny && g.chance(1, 25) {
+			x.p("lateidle")
+		}
 		nb := 2 + g.intn(4)
 		if tiny {
 			// with a tiny limit only blocks that do not depend on a handle surviving
@@ -653,6 +659,86 @@ func (x *regRun) step(ws []string) (out string) {
 		case <-time.After(patience(5 * time.Second)):
 			return "err blocked"
 		}
+	case "lateidle": // a transaction that is used until it is past the WARNING threshold of its lifetime (75 %) and only then abandoned is
+		// still reaped by the idle rule at the next cleanup pass (not only when its whole lifetime is over)
+		ms := time.Millisecond
+		ttl, idle := 4000*ms, 400*ms
+		m := transaction.NewManagerWithTTL(x.fac, nil, ttl, ttl, idle)
+		eng := &regTTLEngine{EngineFacade: x.fac, m: m}
+		reg := transaction.NewRegistryWithTTL(ttl, idle, 75, 90)
+		svc := service.NewKevoServiceServer(eng, reg, nil)
+		ctx := context.WithValue(bg, "peer", "late")
+		resp, err := svc.BeginTransaction(ctx, &pb.BeginTransactionRequest{ReadOnly: false})
+		if err != nil {
+			return "lateidle begin-" + regErr(err)
+		}
+		t0 := time.Now()
+		for time.Since(t0) < 3100*ms {
+			svc.TxGet(bg, &pb.TxGetRequest{TransactionId: resp.TransactionId, Key: []byte("k")})
+			time.Sleep(100 * ms)
+		}
+		time.Sleep(600 * ms)
+		reg.(*transaction.RegistryImpl).CleanupStaleTransactions()
+		_, still := reg.Get(resp.TransactionId)
+		b := make(chan error, 1)
+		go func() {
+			c2, cancel := context.WithTimeout(context.WithValue(bg, "peer", "late2"), 1500*ms)
+			defer cancel()
+			r2, err := svc.BeginTransaction(c2, &pb.BeginTransactionRequest{ReadOnly: false})
+			if err == nil {
+				svc.RollbackTransaction(bg, &pb.RollbackTransactionRequest{TransactionId: r2.TransactionId})
+			}
+			b <- err
+		}()
+		berr := <-b
+		// leave nothing behind
+		svc.RollbackTransaction(bg, &pb.RollbackTransactionRequest{TransactionId: resp.TransactionId})
+		if still || berr != nil {
+			return fmt.Sprintf("lateidle not-reaped registered=%v next-writer=%s age_ms=%d (idle for 600 ms with an idle limit of 400 ms)", still, regErr(berr), time.Since(t0).Milliseconds())
+		}
+		return "lateidle ok"
+	case "idstorm": // idstorm <goroutines> <rounds>: clients begin read-only transactions in lock step; every handle is handed out once
+		g, rounds := atoi(ws[1]), atoi(ws[2])
+		begins := 0
+		for r := 0; r < rounds; r++ {
+			ids := make([]string, g)
+			var wg sync.WaitGroup
+			start := make(chan struct{})
+			for i := 0; i < g; i++ {
+				wg.Add(1)
+				go func(i int) {
+					defer wg.Done()
+					defer func() { recover() }()
+					<-start
+					ctx, cancel := context.WithTimeout(context.WithValue(bg, "peer", fmt.Sprintf("storm%d", i)), 10*time.Second)
+					defer cancel()
+					if resp, err := x.svc.BeginTransaction(ctx, &pb.BeginTransactionRequest{ReadOnly: true}); err == nil {
+						ids[i] = resp.TransactionId
+					}
+				}(i)
+			}
+			close(start)
+			wg.Wait()
+			seen := map[string]bool{}
+			dup := ""
+			for _, id := range ids {
+				if id == "" {
+					continue
+				}
+				begins++
+				if seen[id] {
+					dup = id
+				}
+				seen[id] = true
+			}
+			for id := range seen {
+				x.svc.CommitTransaction(bg, &pb.CommitTransactionRequest{TransactionId: id})
+			}
+			if dup != "" {
+				return fmt.Sprintf("idstorm dup=%s round=%d (two transactions were registered under one handle: one of them can never be ended)", dup, r)
+			}
+		}
+		return fmt.Sprintf("idstorm ok begins=%d", begins)
 	case "probe":
 		return x.probe()
 	case "active":
